@@ -5,6 +5,7 @@
 import Jqawk.Model.Driver
 import Jqawk.Model.Dump
 import Jqawk.Model.Scope
+import Jqawk.Model.Cli
 
 open Jqawk
 
@@ -86,6 +87,27 @@ def answer (line : String) : String :=
   | ["run", p, s, f, flags] =>
     match hexField p, parseSels s, parseFiles f with
     | some prog, some sels, some files => answerRun prog sels files flags
+    | _, _, _ => "R class=badrequest"
+  | ["cli", a, i, f, _flags] =>
+    let argv? : Option (List Bytes) :=
+      if a == "-" then some [] else (a.splitOn ",").mapM fun x => if x == "e" then some [] else hexField x
+    let stdin? : Option Bytes := if i == "-" || i == "e" then some [] else hexField i
+    let fs? : Option (List Cli.Entry) :=
+      if f == "-" then some [] else
+      (f.splitOn ";").mapM fun e =>
+        match e.splitOn ":" with
+        | [n, d] => do pure { name := (← hexField n), data := (← hexField d) }
+        | [n, d, k] => do pure { name := (← hexField n), data := (← hexField d), isDir := k == "d" }
+        | _ => none
+    match argv?, stdin?, fs? with
+    | some argv, some stdin, some fs =>
+      match Cli.run tbl argv stdin fs with
+      | .unmodelled => "R class=unmodelled why=cli"
+      | .done exit out err written =>
+        let (of, ofe) := match written with
+          | some (_, j) => (showHex j, "1")
+          | none => ("-", "0")
+        s!"R exit={exit} out={showHex out} err={if err then 1 else 0} ofile={of} ofexists={ofe} class=cli{exit}"
     | _, _, _ => "R class=badrequest"
   | ["parse", p] =>
     match hexField p with
